@@ -151,6 +151,7 @@ func (c *controlServer) Quit(
 ) error {
 	// End the server
 	c.server.done()
+	verifhook.Point("rpcserver.quit.after-done")
 
 	// Always return true
 	*response = struct{}{}
